@@ -19,6 +19,7 @@ Case grammar (one line):   <N>[n]|<step>;<step>;...
          | xsr:<owner>/<relpath>:<reldst>:<0|1>   SaveNodeTreeToMessage() of that node + RestoreNodeTreeFromMessage() at <reldst>
          | xra:<relpath>:<pos>               DataNode::RemoveIndexEntryAt() on an own node
          | dt                                the client closes its connection (alone in its step)
+         | at                                a new session is attached (alone in its step; the <sid> is ignored)
   <b>   := '-' (empty string: end of index) | '!' (PR_NAME_REMOVE_FROM_INDEX) | a node name
   abspattern := <sid|*>/<clause>/...  (sent as /*/<session id|*>/...);  clauses are names or '*'.
 Generator discipline (the oracle's client needs it, see index_h.cpp): `un` travels alone; inside one step no su/sq
@@ -104,6 +105,8 @@ def gen_step(rng, n, api_ok):
         return "%d>un:%s" % (sid, rng.choice(SUBPATS))
     if r < 0.18 and n > 1:
         return "%d>dt" % sid
+    if r < 0.19 and n < 4:
+        return "0>at"
     k = 1 if r < 0.62 else rng.choice([2, 2, 3, 4])
     cmds, seen_gd = [], False
     for _ in range(k):
@@ -124,7 +127,10 @@ def gen_case(rng, length, api_ok):
     if rng.random() < 0.5:
         steps.append("%d>sd:a:0" % 0)
     for _ in range(length):
-        steps.append(gen_step(rng, n, api_ok))
+        st = gen_step(rng, n, api_ok)
+        if st == "0>at":
+            n += 1
+        steps.append(st)
     return head + "|" + ";".join(steps)
 
 
@@ -153,6 +159,8 @@ DIRECTED = [
     "2|1>su:*/*;0>sd:a:0;0>sd:b:0;0>io:*:-,-;0>io:*:I0;0>ro:*/I1:I0;0>rm:*/I0;1>gd:*/*",
     # a session leaves: its nodes go, watchers see every index drained; later commands of that session are void
     "3|1>su:*/*;2>su:*/*;0>sd:a:0;0>io:a:-,-;0>io:a/I0:-,-;0>su:*/a;0>dt;0>io:a:-;1>sd:a:0;1>io:a:-;1>dt;2>gd:*/*;2>dt",
+    # sessions joining later: they see snapshots on subscribing, and get their own subtree
+    "1|0>sd:a:0;0>io:a:-,-;0>at;1>su:*/a;0>io:a:I0;1>sd:a:0;1>io:a:-;0>at;2>su:*/*;0>ro:a/I0:-;1>dt;2>gd:*/a;0>at;3>su:0/a;0>rm:a/I1",
     # save + restore: onto nothing, onto itself, onto a destination with an index, from another session
     "2|1>su:*/*;0>sd:a:0;0>io:a:-,-,-;0>ro:a/I1:I0;0>sd:a/z:0;0>io:a/I0:-,-;0>xsr:0/a:c:0;0>xsr:0/a:a:0;0>xsr:0/a:c:1;1>xsr:0/a:c:0;1>io:c:I0;1>xsr:0/a:c:0;0>xsr:1/c:a:0",
     # raw RemoveIndexEntryAt through the node API
@@ -179,6 +187,9 @@ class CHECK(vlib.Check):
                 "no SETDATANODE_FLAG_QUIET / PR_NAME_REMOVE_QUIETLY / PR_NAME_SUBSCRIBE_QUIETLY without a following GETDATA (they suppress notifications by design)",
                 "the client drops its replica of a node when it unsubscribes from it, and treats updates of nodes it is not subscribed to as one-shot reads",
                 "_orderedCounter below 2^32; node depth and counts below the configured limits",
+                "normalisation: DataNode::Reset()/Init() leave _orderedCounter at its previous value, so a node recycled from the pool numbers its generated "
+                "children from where its previous life stopped (not a C13 violation: names stay unique); the harness session zeroes the counter when a node is "
+                "removed so that generated names are reproducible, and the model starts every new node at 0",
                 "memory safety and object lifetime of the C++ (observed by ASan/UBSan in the harness only)"]
     rule = ("command histories over a real in-process ReflectServer with 1-3 sessions, generated from random.Random(seed) plus directed cases; "
             "after EVERY step the per-client per-node PR_RESULT_INDEXUPDATED streams, every node's child table order, index, _orderedCounter and "
